@@ -395,6 +395,10 @@ def corpus():
         hand([plain(100, f"(a (set {I}) -) (b (tupf (seq {S}) (map {I} {I})) -)")],
              ['(init x0 100 (a (S i1 i2)) (b (L (L s"a") (D (i1 i2)))))', "(mutarg x0 a)", "(mutarg x0 b 0)", "(mutarg x0 b 1)", "(asdict x0)",
               "(mutexp x0 a)", "(mutexp x0 b)", "(mutexp x0 b 0)", "(mutexp x0 b 1)", "(asdict x0)"]),
+        # ... also when the argument is a read-only view (mapping proxy) over a dict the caller keeps changing
+        hand([plain(100, f"(a (map {S} {I}) -) (b (seq (map {S} {I})) (L))")],
+             ['(init x0 100 (a (P (s"k" i1))) (b (L (P (s"q" i2)))))', "(asdict x0)", "(mutarg x0 a)", "(asdict x0)", "(mutarg x0 b 0)", "(asdict x0)",
+              '(upd x1 x0 (a (P (s"z" i3))))', "(mutarg x0 a)", "(asdict x1)", "(eq x0 x1)"]),
         # assignment / deletion
         hand(fam, ['(init x0 100 (a (D)))', "(asdict x0)", "(set x0 b (T i9))", "(set x0 zz i1)", "(del x0 a)", "(del x0 zz)", "(asdict x0)"], sub=sub),
         # updated: exactly the named attributes, unknown names ignored, invalid rejected, original untouched
@@ -556,6 +560,8 @@ def run_real(case: str) -> str:  # noqa: C901, PLR0912, PLR0915
                         tgt = _navigate_orig(orig[op[1]][op[2]], [int(x) for x in op[3:]])
                     except (IndexError, KeyError, TypeError):
                         tgt = None
+                    if id(tgt) in getattr(ctx, "proxy_backing", {}):
+                        tgt = ctx.proxy_backing[id(tgt)]       # the dict behind a mapping proxy the caller handed over
                     if isinstance(tgt, (list, set, dict)):
                         _try_mutate(tgt)
                 outs.append("-")
